@@ -283,6 +283,7 @@ func init() {
 }
 
 func runC13(c *rt.Ctx) {
+	soloRun(c, "size")
 	c.SetRule("odd x 2^k for every k in 0..63 with boundary and seeded odd parts; every decimal length 1..20 of the size and of the shortened value; neighbours of 1024^k and 1000^k; the largest multiples of each 1024^k; all values below 2^20 (exhaustive); seeded 64-bit values; " +
 		"each through Shorten, DefaultFormatter under the four format values, String, PrettyString, PrettyHTML, BytesString. distinct_nontrivial counts distinct sizes (by value) whose shortened value has >= 4 digits or whose unit is above KiB")
 	c.Assume("shortening by exact big.Int division and 3-digit grouping re-implemented in harness/ref/size.go")
